@@ -21,6 +21,7 @@ var registry = map[string]check{
 	"C05": {"model_checking", checks.C05},
 	"C08": {"model_checking", checks.C08},
 	"C09": {"model_checking", checks.C09},
+	"C10": {"model_checking", checks.C10},
 	"C13": {"model_checking", checks.C13},
 	"C16": {"model_checking", checks.C16},
 }
